@@ -25,8 +25,7 @@ Proof: (ii) `run_located` (Lemmas/CompileRun*.lean, induction on the evaluator's
          would evaluate left first, which no instruction sequence of the builder does);
          a literal is not an expression value (`lit (.expr j)`: expression values come from `{}` only).
       b. an else-chain has its final arm … see (F1): `WFProgramC` / `C01_compile_correct_chain` drop this.
-      c. `{ }` (emptyNested) does not occur inside an out-of-line root (body of a conditional / else-chain arm,
-         right operand of `&&`/`||`) … see (F2).
+      c. (dropped: `{ }` inside an out-of-line root — see (F2), repaired in the repository.)
       d. the body of a side-effect block contains no `^~` of the enclosing body: a restart from inside the block
          leaves the block's copy of `$` on the input-value stack, so after the restarted body returns the caller's
          `$` is wrong — the compiled program and the meaning of the source differ here, this cannot be relaxed by
@@ -52,15 +51,12 @@ Proof: (ii) `run_located` (Lemmas/CompileRun*.lean, induction on the evaluator's
         `strict_or`: `evalBodyS = evalBody ∨ evalBodyS = .err .state`; `strict_eq`: they coincide when every chain has its
         final arm. The simulation (Lemmas/CompileRun*.lean) is proved for the strict evaluator; `C01_compile_correct`
         (statement unchanged) follows by `strict_eq`.
-   (F2) `$ ?> { }`: the empty nested expression inside an out-of-line root refers to that root's jump entry,
-        not to the containing expression. STILL excluded, and genuinely so — `build` and `evalF` disagree on values, not
-        only on names. Witness (both stores, input `()`):   ({ $ == 1 ?> { } } <~ 1) <~ 0
-        real pipeline and `run (compile …)`: `Expression(2)` (16 steps) — the value of `{ }` names the BRANCH root (jump
-        entry 2), applying it to 0 runs only the branch: `Put (e 2); JumpTo join; EndExpression`;
-        `evalF`: `0` — `{ }` names the enclosing body `{ $ == 1 ?> { } }` (jump entry 1), applying it to 0 re-runs the test,
-        which fails, so the value is `$ = 0`. (Same shape with `5` for `{ }` gives unit on both sides.) `evalF` cannot
-        express the builder's meaning compositionally: the value denotes "the rest of the enclosing body from the branch
-        on" (the branch root ends in `JumpTo join`, so entering it continues AFTER the conditional in the enclosing body).
+   (F2) `$ ?> { }`: the empty nested expression inside an out-of-line root used to refer to that root's jump entry,
+        not to the containing expression — a genuine defect (reproducer `({ $ == 1 ?> { } } <~ 1) <~ 0`: `Expression(2)`
+        where the source means `0`), REPAIRED in the repository (commit df89d39: `{ }` takes the node's
+        `containing_expression_jump`, as `^~` does). `emit` follows (`.emptyNested ↦ Put (.expr cur)`), the exclusion is
+        removed from `wfE`/`wfC`, and the reproducer is a regression example below (`exF2`: well formed, meaning `0`,
+        compiled program computes `0`).
 -/
 import Garnish.Lemmas.CompileRun4
 import Garnish.Lemmas.CompileStrict3
@@ -433,6 +429,76 @@ example (fo : FloatOps Float) (host : Host Float) :
   constructor <;>
     simp [evalProgram, evalProgramS, evalBody, evalBodyS, evalF, evalFS, evalChain, evalChainS, exChain, Val.truthy, binaryOp,
       valEq, norm, nvalEq, Val.ofBool, settle]
+
+/-! ### regression for the former finding (F2): `{ }` inside a conditional arm
+
+`({ $ == 1 ?> { } } <~ 1) <~ 0` used to give `Expression(2)` (the arm's own jump entry) on the real pipeline where the
+meaning of the source is `0`; since repo commit df89d39 `{ }` names the containing expression everywhere, `emit` follows
+(`.emptyNested ↦ Put (.expr cur)`), the exclusion is gone from `wfE`, and the program is an ordinary well-formed one. -/
+
+def exF2body : Expr Float := .cond true (.binary .equal .input (.lit (.num (.int 1)))) .emptyNested
+def exF2main : Expr Float :=
+  .binary .apply (.binary .apply (.nested 1) (.lit (.num (.int 1)))) (.lit (.num (.int 0)))
+def exF2 : Program Float := { main := exF2main, bodies := [(0, exF2main), (1, exF2body)] }
+
+/-- the arm (root 2, laid out at 12) holds `Put (e 1)`: the nested body, not the arm -/
+example : (compile exF2).instrs =
+    #[(.put, some 0), (.put, some 1), (.apply, none), (.put, some 2), (.apply, none), (.endExpression, none),
+      (.putValue, none), (.put, some 3), (.equal, none), (.jumpIfTrue, some 2), (.putValue, none), (.endExpression, none),
+      (.put, some 4), (.jumpTo, some 3)] ∧
+    (compile exF2).jumps = #[0, 6, 12, 11] := by
+  constructor <;> decide
+
+example : (compile exF2).consts[4]? = some (.expr 1) := by rfl
+
+theorem exF2_done : (compileState Prog.empty exF2).done =
+    [⟨.code .emptyNested, 2, [(.jumpTo, some 3)], 1⟩, ⟨.ref 1, 1, [(.endExpression, none)], 1⟩,
+     ⟨.ref 0, 0, [(.endExpression, none)], 0⟩] := by rfl
+
+theorem exF2_wf : WFProgram exF2 where
+  main0 := rfl
+  wf := by
+    intro id b h
+    simp only [exF2, lookupBody] at h
+    split at h
+    · cases h; rfl
+    · split at h
+      · cases h; rfl
+      · cases h
+  tail := rfl
+  labels := by
+    intro r hr id hk
+    rw [exF2_done] at hr
+    simp only [List.mem_cons, List.not_mem_nil, or_false] at hr
+    rcases hr with rfl | rfl | rfl <;> first | (cases hk; rfl) | cases hk
+  covered := by
+    intro id b h
+    rw [exF2_done]
+    simp only [exF2, lookupBody] at h
+    split at h
+    · rename_i hid
+      have h0 : (0 : Nat) = id := by simpa using hid
+      subst h0
+      exact ⟨⟨.ref 0, 0, [(.endExpression, none)], 0⟩, by simp, rfl⟩
+    · split at h
+      · rename_i hid
+        have h0 : (1 : Nat) = id := by simpa using hid
+        subst h0
+        exact ⟨⟨.ref 1, 1, [(.endExpression, none)], 1⟩, by simp, rfl⟩
+      · cases h
+
+/-- the meaning of the source: `0` -/
+theorem exF2_meaning (fo : FloatOps Float) (host : Host Float) :
+    evalProgram fo host 12 exF2 .unit = .ok (.num (.int 0), ⟨.unit, []⟩) := by
+  simp [evalProgram, evalBody, evalF, applyVals, applyKind, lookupBody, exF2, exF2main, exF2body, binaryOp, valEq, norm,
+    nvalEq, Number.numEq, Val.ofBool, Val.truthy, settle]
+
+/-- … and that is what the compiled program computes -/
+example (fo : FloatOps Float) (host : Host Float) :
+    ∃ n s, run fo host (compile exF2) n
+        { pc := (compile exF2).jumps[0]?.getD 0, regs := [], vals := [.unit], frames := [], trace := [] } = (.halted s, n) ∧
+      s.vals = [.num (.int 0)] ∧ s.regs = [] ∧ s.frames = [] ∧ s.trace = [] :=
+  C01_compile_correct fo host exF2 .unit 12 _ _ exF2_wf (exF2_meaning fo host)
 
 /-- the verified depth analysis accepts the compiled example (C06 static half, non-vacuity) -/
 example : (C06.absDepth (compile (exProg (F := Float))) 0).isSome = true := by decide
